@@ -34,7 +34,7 @@ func HarnessC07_Chunks() {
 func HarnessC07_Decode() {
 	m := NewMessage()
 	m.MessageType = MessageType(vU8())
-	m.Payload = vBytes(vChoice(c07Bound(10, 13) + 1))
+	m.Payload = vBytes(vChoice(c07Bound(13, 16) + 1))
 	p := NewProtocol(newDuplex())
 	if vChoice(2) == 1 {
 		// with an outstanding request, so that responses reach their decoders
@@ -54,7 +54,7 @@ func HarnessC07_Decode() {
 
 // HarnessC07_Packets: each packet type's UnmarshalBinary on arbitrary bytes.
 func HarnessC07_Packets() {
-	data := vBytes(vChoice(c07Bound(10, 13) + 1))
+	data := vBytes(vChoice(c07Bound(13, 16) + 1))
 	var pkt Packet
 	switch vChoice(12) {
 	case 0:
